@@ -10,7 +10,6 @@ use oal_compiler::tree::{Core, NRef, Tree};
 use oal_model::grammar::AbstractSyntaxNode;
 use oal_model::locator::Locator;
 use oal_syntax::parser::{Binding, Declaration, Gram, Identifier, Qualifier, Variable};
-use std::collections::hash_map::Entry;
 use std::collections::HashMap;
 use url::Url;
 
@@ -120,8 +119,12 @@ pub fn references(
     for folder in find_folders(&state.folders, &loc) {
         let tree = folder.module(&loc).unwrap();
         if let Some(definition) = find_definition(tree, index) {
-            let r = &mut find_references(&mut state.workspace, folder, &definition)?;
-            refs.append(r);
+            for r in find_references(&mut state.workspace, folder, &definition)? {
+                // A module can belong to several folders: report each reference once.
+                if !refs.contains(&r) {
+                    refs.push(r);
+                }
+            }
         }
     }
 
@@ -202,6 +205,15 @@ pub fn rename(
     Ok(Some(edits))
 }
 
+/// Registers an edit, unless it is already known.
+/// A module can belong to several folders, each yielding the same edit.
+fn push_edit(changes: &mut HashMap<Url, Vec<TextEdit>>, uri: Url, edit: TextEdit) {
+    let edits = changes.entry(uri).or_default();
+    if !edits.contains(&edit) {
+        edits.push(edit);
+    }
+}
+
 /// Renames an import qualifier and all references.
 fn rename_qualifier<'a>(
     workspace: &mut Workspace,
@@ -218,7 +230,7 @@ fn rename_qualifier<'a>(
     // Rename the qualifier definition
     let def_location = node_location(workspace, definition.node())?;
     let def_edit = TextEdit::new(def_location.range, new_name.into());
-    changes.insert(def_location.uri, vec![def_edit]);
+    push_edit(changes, def_location.uri, def_edit);
 
     // Rename all references to the qualifier
     let loc = definition.node().span().unwrap().locator().clone();
@@ -228,14 +240,7 @@ fn rename_qualifier<'a>(
             (Some(reference), Some(definition)) if reference == definition => {
                 let location = node_location(workspace, reference.node())?;
                 let edit = TextEdit::new(location.range, new_name.into());
-                match changes.entry(location.uri) {
-                    Entry::Occupied(mut e) => {
-                        e.get_mut().push(edit);
-                    }
-                    Entry::Vacant(e) => {
-                        e.insert(vec![edit]);
-                    }
-                }
+                push_edit(changes, location.uri, edit);
             }
             _ => {}
         }
@@ -269,19 +274,12 @@ fn rename_variable(
     };
     let decl_location = node_location(workspace, ident)?;
     let decl_edit = TextEdit::new(decl_location.range, new_name.into());
-    changes.insert(decl_location.uri, vec![decl_edit]);
+    push_edit(changes, decl_location.uri, decl_edit);
 
     // Rename all references to the variable.
     for r in find_references(workspace, folder, &definition)? {
         let edit = TextEdit::new(r.range, new_name.into());
-        match changes.entry(r.uri) {
-            Entry::Occupied(mut e) => {
-                e.get_mut().push(edit);
-            }
-            Entry::Vacant(e) => {
-                e.insert(vec![edit]);
-            }
-        }
+        push_edit(changes, r.uri, edit);
     }
 
     Ok(())
